@@ -79,6 +79,8 @@ def endname(cls):
 # the model: three slots, each None | ["one", spec] | ["multi", [spec...]]
 
 class Model:
+    provider = "zoneinfo"     # the process-wide provider decides which zone objects parsing hands back
+
     def __init__(self, cls):
         self.cls = cls
         self.S = None
@@ -139,8 +141,8 @@ class Model:
                 spec = spec[:3]
             if spec[0] == "dt" and spec[7] and spec[7][0] == "zi" and len(spec[7]) > 2:
                 spec = spec[:7] + [spec[7][:2]] + spec[8:]      # ... and no text says which of two equal times
-            if spec[0] == "dt" and spec[7] and spec[7][0] == "pytz":
-                return spec[:7] + [["zi", spec[7][1]]]
+            if spec[0] == "dt" and spec[7] and spec[7][0] in ("pytz", "zi"):
+                return spec[:7] + [["zi" if self.provider == "zoneinfo" else "pytz", spec[7][1]]]
             return spec
         for n in ("S", "E", "D"):
             v = getattr(self, n)
@@ -259,6 +261,8 @@ def _val(rng, aware, kind=None):
 def generate(rng, cfg):
     from icalsim.rng import pick_weighted
     cls = rng.choice(CLASSES)
+    # the provider is process-wide state that the component never sees - it must not matter which one is selected
+    provider = rng.choice(["zoneinfo", "zoneinfo", "pytz"])
     aware = rng.random() < 0.6
     exotic_ops = rng.random() < 0.5
     props = {}
@@ -279,6 +283,7 @@ def generate(rng, cfg):
             extra.append([name, rng.choice(DURS) if name == "DURATION" else _val(rng, aware)])
     trace = [[0, "new", {"cls": cls, "how": how, "props": props, "extra": extra}]]
     m = Model(cls)
+    m.provider = provider
     for k, v in props.items():
         m.put(k, ["one", v])
     for k, v in extra:
@@ -327,7 +332,7 @@ def generate(rng, cfg):
             step = [0, "setitem", {"name": name, "v": v}]
             m.setitem(name, v)
         trace.append(step)
-    return {"cfg": {"provider": "zoneinfo"}, "trace": trace}
+    return {"cfg": {"provider": provider}, "trace": trace}
 
 
 def _vclass(v):
@@ -431,6 +436,9 @@ def execute(run, res):
             cls = a["cls"]
             klass = getattr(C, cls)
             m = Model(cls)
+            m.provider = run.get("cfg", {}).get("provider", "zoneinfo")
+            if m.provider == "pytz":
+                res.probe("pytz_provider_selected")
             if a["how"] == "parse":
                 text = _text_for(cls, a["props"], a.get("extra", ()))
                 try:
